@@ -445,7 +445,13 @@ impl App {
                     encoded_extended_commit_info_len = encoded_extended_commit_info.len(),
                     "extended commit info is too large to fit in block; not including in block"
                 );
-                encoded_extended_commit_info = DataItem::ExtendedCommitInfo(Bytes::new()).encode();
+                encoded_extended_commit_info = DataItem::ExtendedCommitInfo(
+                    ExtendedCommitInfoWithCurrencyPairMapping::empty(round)
+                        .into_raw()
+                        .encode_to_vec()
+                        .into(),
+                )
+                .encode();
                 block_size_constraints
                     .cometbft_checked_add(encoded_extended_commit_info.len())
                     .wrap_err("exceeded size limit while adding empty extended commit info")?;
